@@ -17,11 +17,23 @@ def applyFlag (vals : List (List Char)) : Option (List (List Nat)) :=
 
 def cmdT : List String → String
   | ["hex", h] =>
-    match (hexToBytes h).bind utf8Chars with
-    | some cs => match parseAnnotatedHex cs with
+    -- well-formed UTF-8 goes through the core library's decoder, anything else through `goRunes`
+    match hexToBytes h with
+    | some raw =>
+      let cs := match utf8Chars raw with
+        | some cs => cs
+        | none => goRunes raw
+      match parseAnnotatedHex cs with
       | some b => s!"ok {bytesToHex b}"
       | none => "err"
-    | none => "badutf8"
+    | none => "bad"
+  | ["hexg", h] =>
+    -- the same through `goRunes` only (development aid: both decoders must agree on well-formed UTF-8)
+    match hexToBytes h with
+    | some raw => match parseAnnotatedHexBytes raw with
+      | some b => s!"ok {bytesToHex b}"
+      | none => "err"
+    | none => "bad"
   | ["dump", e, s, h] =>
     match parseFlagValues e, parseFlagValues s, hexToBytes h with
     | some ev, some sv, some data =>
